@@ -33,6 +33,7 @@ class World:
         self.nts = []
         self.attempt = [0]
         self.servers = list(servers)
+        self.made = []               # the stand-in server of every accepted connection
         world = self
 
         def factory(sock):
@@ -49,7 +50,12 @@ class World:
             elif beh == 'f':
                 cfg['status'] = 'close'
                 cfg['script'] = [('close',)]
+            elif beh == 'z':          # switches compression on, logs the client in and drops the TCP connection
+                cfg['script'] = [('compress', 64), ('success',), ('close',)]
+            elif beh == 'Z':          # switches compression on, logs the client in, then a play-state disconnect
+                cfg['script'] = [('compress', 64), ('success',), ('play_disconnect', '{"text":"bye"}')]
             srv = RefServer(sock, cfg)
+            world.made.append(srv)
             if beh == 'a':
                 srv.on_status = lambda pid, payload: None
             return srv
@@ -275,8 +281,13 @@ def run_world(C, servers, rl, rh, progs, mode, rng, re_=0):
                 t = nts[0] if nts else sorted(en)[0]
             else:
                 t = rng.choice(en)
-            S.step(t)
-            S.wait_all_parked(all_tids())
+            try:
+                S.step(t)
+                S.wait_all_parked(all_tids())
+            except SC.Deadlock as e:       # a thread blocks outside every scheduling point (e.g. waits for a thread that
+                stuck = 'blocked: %s' % e  # is itself waiting to be scheduled): abandon the run, keep what was observed
+                S.kill()
+                break
             n += 1
             if n > 5000:
                 stuck = 'step limit'
@@ -287,6 +298,7 @@ def run_world(C, servers, rl, rh, progs, mode, rng, re_=0):
                    nt=world.conn.networking_thread is not None, newnt=world.conn.new_networking_thread is not None,
                    sock=world.conn.socket is not None, connected=bool(world.conn.connected), stuck=stuck,
                    errors=list(S.errors), ran=list(S.ran),
+                   server_view=[(srv.handshake, srv.login_name, list(srv.errors)[:1], len(srv.frames)) for srv in world.made],
                    users_done=all(S.state.get(t) == 'done' for t in user_tids),
                    interrupted={nt.sched_tid: bool(nt._int) for nt in world.nts},
                    pending={t: S.pending.get(t, (None,))[0] for t in all_tids() if S.state.get(t) != 'done'})
@@ -448,6 +460,33 @@ def run(ctx):
                  sample={'programs': progs, 'servers': servers, 'steps': len(r['ran']), 'outcomes': r['outs']})
         ctx.count('par.steps', len(r['ran']))
         oracle(ctx, servers, rl, rh, progs, r, 'two user threads')
+    # ---- a session in which the server had switched compression on ends (TCP drop -> error, or a play-state disconnect) and
+    # the application connects again from its exception handler / listener WITHOUT calling disconnect() first: the new
+    # server, which has announced nothing, must be able to read the new session's handshake and login start as plain frames
+    for i in range(ctx.scale(12, 60)):
+        first = 'zZ'[i % 2]
+        servers = [first, rng.choice('pa'), 'a', 'a']
+        rl, rh = (0, 1) if first == 'z' else (1, 0)
+        r = run_world(C, servers, rl, rh, [['c']], 'sequential' if i % 4 < 2 else 'random', rng)
+        ctx.case(('compressed-then-reconnect', first, servers[1], i % 4 < 2, tuple(r['ran'])),
+                 sample={'kind': 'compressed-then-reconnect', 'servers': servers, 'server_view': repr(r['server_view'])[:160]})
+        ctx.count('compressed-then-reconnect.' + first)
+        view = r['server_view']
+        bad = None
+        if len(view) < 2:
+            bad = 'no second connection was made (events %r)' % (r['events'][:4],)
+        else:
+            hs, name, errs, nframes = view[1]
+            if errs or hs is None or hs.get('protocol') != 757 or hs.get('next') not in (1, 2) or (hs.get('next') == 2 and name != 'u'):
+                bad = 'the second server, which never announced compression, reads handshake=%r login name=%r parse errors=%r ' \
+                      '(%d frames)' % (hs, name, errs, nframes)
+        if bad:
+            ctx.violation('first session with compression ends by %s, reconnect from the %s without disconnect(): %s'
+                          % ('a dropped TCP connection' if first == 'z' else 'a play-state disconnect',
+                             'exception handler' if first == 'z' else 'packet listener', bad),
+                          {'servers': servers, 'schedule': r['ran'][:200]},
+                          key={'kind': 'compressed-then-reconnect', 'first': first})
+        oracle(ctx, servers, rl, rh, [['c']], r, 'compressed session then reconnect')
     ends_tie(ctx)
 
 
